@@ -67,7 +67,7 @@ func check(c Case, st *stats) (fs []fail) {
 		}
 		st.outcomes[l]++
 	}
-	if len(fs) > 0 || o.err != nil || o.panicked != "" || o.opaque || o.cfg == nil {
+	if o.err != nil || o.panicked != "" || o.opaque || o.cfg == nil {
 		return fs
 	}
 	for _, scen := range c.Scenarios {
@@ -295,27 +295,26 @@ func main() {
 			via: []string{"auth", "transport", "client"},
 		}
 		hsIdent = full
-		hsIdent.caFile, hsIdent.loadedCA, hsIdent.pool = nil, nil, nil // baselines below
 		hsVerify = full
-		hsVerify.certFile, hsVerify.keyFile, hsVerify.loadedCert, hsVerify.loadedKey = nil, nil, nil, nil
 		hsVerify.serverName = []string{"", "srv.test", "other.test"}
+		hsVerify.tickets = []bool{false}
 	} else {
 		full = axes{
 			certFile:   []string{"", "R1", "E1", "missing", "garbage"},
 			keyFile:    []string{"", "kR1", "kE1", "kE2", "missing"},
 			loadedCert: []string{"", "R1", "E1"},
 			loadedKey:  []string{"", "kR1", "kE1", "kE2", "kD1"},
-			caFile:     []string{"", "A", "AB", "garbage", "missing"},
+			caFile:     []string{"", "A", "garbage", "missing"},
 			loadedCA:   []string{"", "C"},
 			pool:       []string{"", "empty", "P"},
 			serverName: []string{"", "srv.test", "other.test"},
 			callback:   []string{"", "accept", "reject"},
 			insecure:   bools, tickets: bools, cache: bools,
-			via: []string{"auth", "transport", "client"},
+			via: []string{"auth", "client"}, // TLSClient is built on TLSTransport
 		}
 		hsIdent = full
 		hsVerify = full
-		hsVerify.tickets, hsVerify.cache = []bool{false}, []bool{false, true}
+		hsVerify.tickets, hsVerify.cache = []bool{false}, []bool{false}
 	}
 	scen := allScenarios()
 
@@ -351,10 +350,11 @@ func main() {
 	nB1 := len(shards) - nA
 	// sweep B2: few identities x every root combination x every flag combination x all scenarios
 	b2ids := []identity{{"", "", "", ""}, {"", "", "E1", "kE1"}, {"R1", "kR1", "", ""}}
-	b2modes := []mode{{"auth", false, scen}, {"client", true, scen}, {"transport", true, scen}}
+	few := []string{"A/srv.test", "A/other.test", "C/srv.test", "P/srv.test", "SYS/srv.test", "U/srv.test", "A/srv.test/old", "A/srv.test/tls12"}
+	b2modes := []mode{{"auth", false, scen}, {"client", true, scen}, {"transport", true, few}}
 	if !r.Thorough() {
 		b2ids = b2ids[:2]
-		b2modes = []mode{{"auth", false, scen}, {"client", true, []string{"A/srv.test", "A/other.test", "C/srv.test", "P/srv.test", "SYS/srv.test", "U/srv.test", "U/other.test", "A/srv.test/old"}}}
+		b2modes = []mode{{"auth", false, scen}, {"client", true, few}}
 	}
 	flB2 := hsVerify.flags()
 	for _, id := range b2ids {
